@@ -409,24 +409,48 @@ Section C06multi.
   Proof. exact (api_status_invariant num sub absf ltb isfin zero ev before after L locate cs s). Qed.
 End C06multi.
 
-(* the histories the correspondence K_history runs against the implementation (SolveAllHistF.run_hist: solve_t / solve_period / solve
-   calls on one scripted instance, outcomes collected) have exactly the states of run_api, and therefore the invariant: after any such
-   history every status is one of the five SolutionStatus values — the initial one, '.', 'F', 'S' (only if some call had
-   errors='skip') or 'E' (only if some call had errors='raise') — and the series keep their length *)
-Theorem C06_run_hist_is_run_api sc d kind span n cs s :
-  fst (run_hist sc d kind span n cs s) =
-  run_api float PrimFloat.sub PrimFloat.abs PrimFloat.ltb fisfin fzero (s_ev n sc) (s_before n sc) (s_after n sc) Z
-          (f_locate kind span []) (map (to_api d span) cs) s.
-Proof. exact (run_hist_state sc d kind span n cs s). Qed.
-Theorem C06_history_status_invariant sc d kind span n cs s :
-  let s' := fst (run_hist sc d kind span n cs s) in
+(* the histories the correspondence K_history runs against the implementation (SolveAllHistF.run_hist on ONE scripted instance:
+   solve_t / solve_period / solve calls, each with its own options, interleaved with copy(), whole-series list assignments, direct
+   cell assignments (NaN included) and reindex() onto another span; every outcome collected).
+   Without reindex(): the series keep their length and every status after the history is one of the five SolutionStatus values —
+   the one the period started with, '.', 'F', 'S' (only if some call had errors='skip') or 'E' (only if some call had errors='raise'). *)
+Theorem C06_history_status_invariant sc d kind cs (s : fstate) span :
+  existsb is_reindex cs = false ->
+  let s' := fst (fst (run_hist sc d kind cs (s, span))) in
   List.length (status s') = List.length (status s) /\ List.length (iters s') = List.length (iters s) /\
   forall q x, nth_error (status s') q = Some x ->
     In (st_char x) Generated.status_values /\
     (nth_error (status s) q = Some x \/ x = Solved \/ x = Failed \/
-     (x = Skipped /\ exists c, In c cs /\ errors (hcall_opts c) = ESkip) \/
-     (x = ErrorSt /\ exists c, In c cs /\ errors (hcall_opts c) = ERaise)).
-Proof. exact (hist_status_invariant sc d kind span n cs s). Qed.
+     (x = Skipped /\ exists c, In c cs /\ hcall_errors c = Some ESkip) \/
+     (x = ErrorSt /\ exists c, In c cs /\ hcall_errors c = Some ERaise)).
+Proof. exact (hist_status_invariant sc d kind cs s span). Qed.
+(* ANY history, reindex() included: every status is one of the five values — one present in the start state, the fill '-' of a
+   reindex, '.', 'F', 'S' (only after a call with errors='skip') or 'E' (only after one with errors='raise'); status and iterations
+   stay equally long *)
+Theorem C06_history_status_invariant_general sc d kind cs (s : fstate) span :
+  List.length (iters s) = List.length (status s) ->
+  let s' := fst (fst (run_hist sc d kind cs (s, span))) in
+  List.length (iters s') = List.length (status s') /\
+  forall x, In x (status s') ->
+    In (st_char x) Generated.status_values /\
+    (In x (status s) \/ x = Unsolved \/ x = Solved \/ x = Failed \/
+     (x = Skipped /\ exists c, In c cs /\ hcall_errors c = Some ESkip) \/
+     (x = ErrorSt /\ exists c, In c cs /\ hcall_errors c = Some ERaise)).
+Proof. exact (hist_status_invariant_general sc d kind cs s span). Qed.
+(* a solver call of a history IS the corresponding call of run_api (C06_api_history_status_invariant) on the current span;
+   copy() and assignments never touch status / iterations / span *)
+Theorem C06_history_call_is_api_call sc d kind c a (s : fstate) span :
+  to_api d span c = Some a ->
+  fst (run_hcall sc d kind c (s, span)) =
+  (run_api1 float PrimFloat.sub PrimFloat.abs PrimFloat.ltb fisfin fzero
+            (s_ev (List.length (status s)) sc) (s_before (List.length (status s)) sc) (s_after (List.length (status s)) sc) Z
+            (f_locate kind span []) a s, span).
+Proof. exact (run_hcall_api sc d kind c a s span). Qed.
+Theorem C06_history_edit_keeps_status sc d kind c (s : fstate) span :
+  to_api d span c = None -> is_reindex c = false ->
+  status (fst (fst (run_hcall sc d kind c (s, span)))) = status s /\ iters (fst (fst (run_hcall sc d kind c (s, span)))) = iters s /\
+  snd (fst (run_hcall sc d kind c (s, span))) = span.
+Proof. exact (run_hcall_edit sc d kind c s span). Qed.
 
 (* the five statuses of the model are the SolutionStatus values of the working tree (regenerated constant) *)
 Theorem C06_status_alphabet_matches_source :
@@ -538,8 +562,10 @@ Print Assumptions C06_calls_status_invariant.
 Print Assumptions C06_catch_first_no_store.
 Print Assumptions C06_skip_moves_on.
 Print Assumptions C06_api_history_status_invariant.
-Print Assumptions C06_run_hist_is_run_api.
 Print Assumptions C06_history_status_invariant.
+Print Assumptions C06_history_status_invariant_general.
+Print Assumptions C06_history_call_is_api_call.
+Print Assumptions C06_history_edit_keeps_status.
 Print Assumptions C06_status_alphabet_matches_source.
 Print Assumptions C06_status_always_in_alphabet.
 Print Assumptions C06_catch_first_warning_no_store.
